@@ -352,6 +352,42 @@ def tensor_binop(eng, st, op, a, b):
     return like(eng, st, t, val)
 
 
+def tensor_inplace(eng, st, op, recv, other, alpha=None):
+    """`recv op= other` / recv.op_(other): the receiver's storage is overwritten; the result of the
+    out-of-place operation is cast to the receiver's dtype (torch semantics for in-place ops)."""
+    if alpha is not None:
+        other = eng.binop('Mult', other, alpha, st) if is_tensor(other) else eng.binop('Mult', alpha, other, st)
+    res = tensor_binop(eng, st, op, recv, other)
+    val = tv(eng, st, res)      # cast back to the receiver's dtype: exact in mode R (see Tensor.to)
+    eng.assumptions.add('dtype casts preserve the mathematical value (floating point treated as real arithmetic)')
+    eng.write_field(st, recv, 'val', V(KMat, val), cls='Tensor')
+    return recv
+
+
+def _mk_inplace(op):
+    def f(eng, st, recv, args, kwargs):
+        other = args[0]
+        return tensor_inplace(eng, st, op, recv, other, alpha=kwargs.get('alpha'))
+    return f
+
+
+for _n, _op in (('mul_', 'Mult'), ('add_', 'Add'), ('sub_', 'Sub'), ('div_', 'Div')):
+    method('Tensor', _n)(_mk_inplace(_op))
+
+
+@method('Tensor', 'copy_')
+def _copy_(eng, st, recv, args, kwargs):
+    src = args[0]
+    val = tv(eng, st, src)
+    eng.write_field(st, recv, 'val', V(KMat, val), cls='Tensor')
+    return recv
+
+
+@method('Tensor', 'zero_')
+def _zero_(eng, st, recv, args, kwargs):
+    return _fill_(eng, st, recv, [V(KInt, z3.IntVal(0))], {})
+
+
 def tensor_getitem(eng, st, base, node):
     """t[:, :-1], t[:, -1:] (column blocks, views) and t[i] on tuples of index tensors."""
     sl = node.slice
